@@ -20,7 +20,7 @@ def contexts_for(ctx, g, maxlen=4, cap=14):
 
 
 def run_lm(jobs, hashseed=0):
-    return run_impl("lmops", {"jobs": jobs}, hashseed=hashseed, timeout=1800)["results"]
+    return run_impl("lmops", {"jobs": jobs}, hashseed=hashseed, timeout=1200)["results"]
 
 
 def shrink(ctx, g, kind, c, want):
